@@ -5,6 +5,7 @@ import (
 	"go/ast"
 	"go/token"
 	"go/types"
+	"regexp"
 	"sort"
 	"strings"
 
@@ -293,6 +294,9 @@ func checkC13(c *Ctx) {
 	// a definition is marked as referenced (hence skipped by the definitions pass) only by a
 	// comparison that really runs: the visited test precedes the $ref resolution
 	checkRecursionGuard(c, "C13.R8.visited-order", pk)
+	checkAccumulation(c, pk)
+	checkTwinShortcuts(c, "C13.R4.twin-shortcuts", r)
+	checkComparedAsDeclared(c, pk)
 	// comparisons that every parameter pair goes through
 	c.Rule("C13.R4.unconditional", "in compareParams the description, property, required-ness and simple-schema comparisons run for every parameter pair: no condition and no earlier return guards them", 4)
 	if fd := load.FuncDecl(pk, "SpecAnalyser.compareParams"); fd == nil {
@@ -683,6 +687,179 @@ func checkRefResolution(c *Ctx, r *goan.Rel) {
 			})
 			c.Check(len(early) == 0, rule, fmt.Sprintf("diff.%s › %s resolved before its fields are read", load.FuncName(fd), v.Name()), c.posOf(pk, as.Pos()),
 				"no field of the unresolved reference is read", fmt.Sprintf("fields %v of %s are read before the $ref is resolved: for a referenced schema they are the (empty) fields of the reference object", early, v.Name()))
+		})
+	}
+}
+
+// checkAccumulation: in CompareProps the type-hierarchy change, the string constraint checks
+// and the numeric constraint checks accumulate into one result: no return separates them (a
+// format change is compatible with a simultaneous change of bounds or lengths).
+func checkAccumulation(c *Ctx, pk *packages.Package) {
+	rule := "C13.R4.accumulate"
+	c.Rule(rule, "CompareProps: the type-hierarchy change, the string checks and the numeric checks are all evaluated once the primitive-type gate is passed", 1)
+	fd := load.FuncDecl(pk, "SpecAnalyser.CompareProps")
+	if fd == nil {
+		c.Anchor(rule, "diff.SpecAnalyser.CompareProps", "not found")
+		return
+	}
+	var first, last token.Pos
+	n := 0
+	ast.Inspect(fd.Body, func(nd ast.Node) bool {
+		call, ok := nd.(*ast.CallExpr)
+		if !ok {
+			return true
+		}
+		name := goan.LastSel(call.Fun)
+		if id, ok := call.Fun.(*ast.Ident); ok {
+			name = id.Name
+		}
+		switch name {
+		case "getTypeHierarchyChange", "CheckStringTypeChanges", "checkNumericTypeChanges":
+			n++
+			if !first.IsValid() || call.Pos() < first {
+				first = call.Pos()
+			}
+			if call.Pos() > last {
+				last = call.Pos()
+			}
+		}
+		return true
+	})
+	if n < 3 {
+		c.Unk(rule, "diff.SpecAnalyser.CompareProps › hierarchy / string / numeric checks", c.posOf(pk, fd.Pos()), fmt.Sprintf("%d of the 3 checks found", n))
+		return
+	}
+	bad := ""
+	ast.Inspect(fd.Body, func(nd ast.Node) bool {
+		if rs, ok := nd.(*ast.ReturnStmt); ok && rs.Pos() > first && rs.Pos() < last {
+			bad = c.posOf(pk, rs.Pos())
+		}
+		return true
+	})
+	c.Check(bad == "", rule, "diff.SpecAnalyser.CompareProps › no return between the hierarchy change and the last constraint check", c.posOf(pk, fd.Pos()), "differences accumulate",
+		"CompareProps returns at "+bad+" before all of the hierarchy, string and numeric checks ran: when the format (or type) changed in a compatible way, a narrowed bound, length, pattern or enum in the same edit is not reported")
+}
+
+var twinAbsentRx = regexp.MustCompile(`^(.+)\.([A-Z]\w*) == nil$|^len\((.+)\.([A-Z]\w*)\) == 0$`)
+
+// checkTwinShortcuts: a shortcut (early return) guarded by the absence of the same attribute
+// on both specs may only fire when it is absent from both: absent on one side and present on
+// the other is precisely a difference to report.
+func checkTwinShortcuts(c *Ctx, rule string, r *goan.Rel) {
+	c.Rule(rule, "an early return guarded by the absence of one attribute in spec 1 and in spec 2 fires only when it is absent from both", 1)
+	pk := r.Pkg
+	info := pk.TypesInfo
+	n := 0
+	for _, fd := range load.AllFuncs(pk) {
+		fd := fd
+		ast.Inspect(fd.Body, func(nd ast.Node) bool {
+			is, ok := nd.(*ast.IfStmt)
+			if !ok || len(is.Body.List) == 0 || !goan.Terminates(info, is.Body.List) {
+				return true
+			}
+			atoms := map[string]bool{}
+			boolAtoms(is.Cond, atoms)
+			type at struct {
+				text string
+				side goan.Side
+			}
+			byField := map[string][]at{}
+			var collect func(e ast.Expr)
+			collect = func(e ast.Expr) {
+				switch x := ast.Unparen(e).(type) {
+				case *ast.BinaryExpr:
+					if x.Op == token.LAND || x.Op == token.LOR {
+						collect(x.X)
+						collect(x.Y)
+						return
+					}
+					txt := goan.ExprString(x)
+					if m := twinAbsentRx.FindStringSubmatch(txt); m != nil {
+						field := m[2] + m[4]
+						byField[field] = append(byField[field], at{txt, r.SideOf(x.X)})
+					}
+				case *ast.UnaryExpr:
+					if x.Op == token.NOT {
+						collect(x.X)
+					}
+				}
+			}
+			collect(is.Cond)
+			for field, as := range byField {
+				var a1, a2 string
+				for _, a := range as {
+					if a.side == goan.S1 {
+						a1 = a.text
+					}
+					if a.side == goan.S2 {
+						a2 = a.text
+					}
+				}
+				if a1 == "" || a2 == "" {
+					continue
+				}
+				n++
+				bad := ""
+				for _, v := range [][2]bool{{true, false}, {false, true}} {
+					env := map[string]bool{}
+					for a := range atoms {
+						env[a] = false
+					}
+					env[a1], env[a2] = v[0], v[1]
+					if boolEval(is.Cond, env) {
+						bad = fmt.Sprintf("absent in spec 1=%v, absent in spec 2=%v", v[0], v[1])
+					}
+				}
+				c.Check(bad == "", rule, fmt.Sprintf("diff.%s › shortcut on .%s absent on both sides", load.FuncName(fd), field), c.posOf(pk, is.Pos()), "fires only when absent from both specs",
+					fmt.Sprintf("`%s` returns early with %s: an attribute present in one spec only — an addition or a removal — is never compared", goan.ExprString(is.Cond), bad))
+			}
+			return true
+		})
+	}
+	if n == 0 {
+		c.Unk(rule, "diff › twin absence shortcuts", "", "no shortcut testing one attribute on both sides found (anchor: CompareProperties)")
+	}
+}
+
+// checkComparedAsDeclared: the lists handed to DiffsTo are the documents' own lists: no
+// function is applied to them on the way (a normalisation that merges two declared values
+// hides the removal of one of them).
+func checkComparedAsDeclared(c *Ctx, pk *packages.Package) {
+	rule := "C13.R4.as-declared"
+	c.Rule(rule, "the lists compared by DiffsTo (consumes, produces, schemes, tags, enums) are the declared ones, not the result of a normalising call", 5)
+	info := pk.TypesInfo
+	plain := func(e ast.Expr) bool {
+		ok := true
+		ast.Inspect(e, func(n ast.Node) bool {
+			if call, isCall := n.(*ast.CallExpr); isCall {
+				// conversions to the package's own array/map adapters are the receiver idiom
+				if id, isId := call.Fun.(*ast.Ident); isId && (id.Name == "fromStringArray" || id.Name == "fromStringMap" || id.Name == "fromMap") {
+					return true
+				}
+				if tv, isT := info.Types[call.Fun]; isT && tv.IsType() {
+					return true
+				}
+				ok = false
+			}
+			return true
+		})
+		return ok
+	}
+	for _, fd := range load.AllFuncs(pk) {
+		fd := fd
+		ast.Inspect(fd.Body, func(n ast.Node) bool {
+			call, ok := n.(*ast.CallExpr)
+			if !ok || len(call.Args) != 1 {
+				return true
+			}
+			se, ok := call.Fun.(*ast.SelectorExpr)
+			if !ok || se.Sel.Name != "DiffsTo" {
+				return true
+			}
+			okP := plain(se.X) && plain(call.Args[0])
+			c.Check(okP, rule, fmt.Sprintf("diff.%s › %s", load.FuncName(fd), goan.ExprString(call)), c.posOf(pk, call.Pos()), "declared lists compared as they are",
+				fmt.Sprintf("`%s` compares the result of a function applied to the declared lists: values the function maps to the same result (media types differing by a parameter…) are merged, so removing one of them is not reported", goan.ExprString(call)))
+			return true
 		})
 	}
 }
